@@ -43,12 +43,13 @@ func NewBytesLength(length int) *Bytes {
 
 // Bytes implements Blob.
 func (b *Bytes) Bytes() []byte {
-	// always return a copy of the bytes, to avoid concurrent modification
-	newB, err := b.Slice(0, int64(b.Len()))
-	if err != nil {
-		panic(err)
-	}
-	return newB.(*Bytes).bytes
+	// always return a copy of the bytes, to avoid concurrent modification.
+	// The length is read under the lock: with Slice(0, Len()) a concurrent Truncate in between was a panic
+	b.mu.Lock()
+	defer b.mu.Unlock()
+	buf := make([]byte, len(b.bytes))
+	copy(buf, b.bytes)
+	return buf
 }
 
 // Len implements Blob.
